@@ -70,10 +70,14 @@ def generate(rng, tier):
             if dt1 == 'bool': v1 = [float(int(x) % 2) for x in v1]
             if dt2 == 'int': v2 = [float(max(int(x), 1 if fn == 'divide' else 0)) for x in v2]
             if dt2 == 'bool': v2 = [1.0 if fn == 'divide' else float(int(x) % 2) for x in v2]
+            fk = 'float'
             if dt1 != 'float' or dt2 != 'float':
                 fill = [0.5, 1.5, 0.25][int(rng.integers(0, 3))] if (fn == 'divide' or rng.integers(0, 3)) else 0.0
+            # how the fill value is passed: as a float, as a Python int, or not at all (the default fill_value=0 is an int)
+            if float(fill).is_integer() and rng.integers(0, 3): fk = 'default' if fill == 0 else 'int'
+            elif fn != 'divide' and rng.integers(0, 4) == 0: fill, fk = 0.0, 'default'
             out.append({'kind': 'pair', 'fn': fn, 'w1': w1, 'v1': v1, 'w2': w2, 'v2': v2, 'u1': u1, 'u2': u2, 'vu': vu,
-                        'sampling': sm, 'fill': fill, 'rel': rel, 'dt1': dt1, 'dt2': dt2})
+                        'sampling': sm, 'fill': fill, 'fk': fk, 'rel': rel, 'dt1': dt1, 'dt2': dt2})
         elif t == 6:
             w = inc_grid(rng, int(rng.integers(2, 9)), bits=2)
             fn = (OPSN + ['power', 'rmul'])[int(rng.integers(0, 6))]
@@ -96,6 +100,7 @@ def signature(c):
 def nontrivial(c): return c['kind'] != 'pair' or c['w1'] != c['w2'] or c['u1'] != c['u2']
 def tags(c):
     t = [c['kind'], 'op:' + c['fn']]
+    if 'fk' in c: t.append('fill:' + c['fk'])
     t.append('dtype:' + c.get('dt1', 'float') + ('/' + c['dt2'] if 'dt2' in c else ''))
     if c['kind'] == 'pair': t += ['rel:' + c['rel'], 'sampling:' + str(c['sampling'] if isinstance(c['sampling'], str) else 'float'), 'units:' + ('same' if c['u1'] == c['u2'] else 'mixed')]
     return t
@@ -148,6 +153,10 @@ class guard:
 def _snap(s): return (s.wave.tobytes(), s.value.tobytes(), s.wave.shape, s.value.shape, s.waveunit, s.valueunit)
 def _out(r): return {'wave': [float(x) for x in r.wave], 'value': [float(x) for x in r.value], 'wu': r.waveunit, 'vu': r.valueunit}
 
+def _fillkw(c):
+    fk = c.get('fk', 'float')
+    return {} if fk == 'default' else {'fill_value': int(c['fill']) if fk == 'int' else c['fill']}
+
 def _call(s1, fn, other, **kw):
     if fn == 'rmul': return other * s1
     return getattr(s1, fn)(other, **kw)
@@ -172,20 +181,20 @@ def _pair(c, R, s1, s2, o):
             b1, b2 = _snap(s1), _snap(s2)
             smp = c['sampling'] if isinstance(c['sampling'], str) else c['sampling'] * float(MPU['nm'] / MPU[c['u1']])
             o['sampling'] = smp
-            kw = {'sampling': smp, 'fill_value': c['fill']}
+            kw = dict({'sampling': smp}, **_fillkw(c))
             r = _call(s1, c['fn'], s2, **kw)
             o['res'] = _out(r); o['new'] = (r is not s1) and (r is not s2) and not np.shares_memory(r.value, s1.value) and not np.shares_memory(r.value, s2.value)
             o['unchanged'] = (_snap(s1) == b1, _snap(s2) == b2)
             sw = {'left': 'right', 'right': 'left'}.get(c['sampling'], c['sampling']) if isinstance(c['sampling'], str) else c['sampling'] * float(MPU['nm'] / MPU[c['u2']])
             if c['fn'] in ('add', 'multiply') and (c['vu'] is None or c['u1'] == c['u2']):
-                r2 = _call(s2, c['fn'], s1, sampling=sw, fill_value=c['fill'])
+                r2 = _call(s2, c['fn'], s1, sampling=sw, **_fillkw(c))
                 r2.to(c['u1'])
                 o['swapped'] = _out(r2)
             o['units'] = {}
             for u in W:
                 a, b = s1.copy(), s2.copy(); a.to(u); b.to(u)
                 smu = c['sampling'] if isinstance(c['sampling'], str) else c['sampling'] * float(MPU['nm'] / MPU[u])
-                o['units'][u] = _out(_call(a, c['fn'], b, sampling=smu, fill_value=c['fill']))
+                o['units'][u] = _out(_call(a, c['fn'], b, sampling=smu, **_fillkw(c)))
             return o
 
 def _single(c, R, s1):
